@@ -87,7 +87,7 @@ def main():
                      "kind_free_text": "deterministic simulation engine (seeded scheduler, explicit traces, forked worlds)"} for e, ps in sorted(engines.items())],
         "checks": checks,
         "not_applicable": sorted(na, key=lambda x: x["property_id"]),
-        "notes": "fix: commits in /repo are listed in known_findings.txt (fixed: lines, each with a witness under replays/fixed/ that fails on the parent commit). Open findings: C09 T1-T3, C10 write sites, C20 PE padding (witnesses under replays/known/). Exit codes: 0 held, 1 VIOLATION, 3 harness error. ./check selftest determinism|mutants prove the simulator; seeded/ holds the independently written breaking changes (sub-agents), all caught after the strengthening recorded in each meta.json; ./check selftest seeds re-runs them.",
+        "notes": "fix: commits in /repo are listed in known_findings.txt (fixed: lines, each with a witness under replays/fixed/ that fails on the parent commit). Open findings: C09 T1 and T3, C10 write sites, C13 mem equality, C20 PE padding (witnesses under replays/known/). Exit codes: 0 held, 1 VIOLATION, 3 harness error. ./check selftest determinism|mutants prove the simulator; seeded/ holds the independently written breaking changes (sub-agents), all caught after the strengthening recorded in each meta.json; ./check selftest seeds re-runs them.",
     }
     with open(os.path.join(here, "MANIFEST.json"), "w") as f:
         json.dump(m, f, indent=1)
